@@ -40,6 +40,15 @@ Bal(a, b) == [x \in {"a", "b", "x", "y", "world"} |-> IF x = "a" THEN a ELSE IF 
 BalsWide == {Bal(a, b) : a \in {-1, 0, 2, 5}, b \in {0, 3}}
 BalsPos == {Bal(a, b) : a \in {2, 5}, b \in {0, 3}}
 
+PctPorts == {<<Por(41, 2000), Remaining>>, <<Por(101, 10000), Por(1, 16), Remaining>>, <<Por(21, 2000), Por(1979, 2000)>>,
+             <<Por(1, 40), Por(3, 80), Remaining>>}
+PctSrc == {SAcct("world", -1), SAcct("a", -1)}
+          \cup {SAllot(ps, <<SAcct("a", -1), SAcct("b", -1)>>) : ps \in {p \in PctPorts : Len(p) = 2}}
+          \cup {SAllot(ps, <<SAcct("a", -1), SAcct("b", -1), SAcct("world", -1)>>) : ps \in {p \in PctPorts : Len(p) = 3}}
+PctDst == {DAcct("x")} \cup {DAllot(ps, <<DAcct("x"), DAcct("y")>>) : ps \in {p \in PctPorts : Len(p) = 2}}
+          \cup {DAllot(ps, <<DAcct("x"), DKept, DAcct("y")>>) : ps \in {p \in PctPorts : Len(p) = 3}}
+BalPct(a, b) == [x \in {"a", "b", "x", "y", "world"} |-> IF x = "a" THEN a ELSE IF x = "b" THEN b ELSE 0]
+
 SrcFew == {SAcct("a", -1), SSeq(<<SAcct("a", -1), SAcct("b", -1)>>), SAcct("world", -1), SMax(3, SAcct("a", 2)),
            SAllot(<<Por(1, 3), Remaining>>, <<SAcct("a", -1), SAcct("b", 2)>>), SSeq(<<SAcct("b", -1), SAcct("a", -2)>>)}
 
@@ -54,6 +63,12 @@ Cases ==
       [] Family = "dst1"    -> {[sends |-> <<Send(m, s, d)>>, bal |-> b] : m \in Amts, s \in SrcFew, d \in D1, b \in BalsPos}
       [] Family = "dst2"    -> {[sends |-> <<Send(m, s, d)>>, bal |-> b] : m \in Amts, s \in SrcFew, d \in RandomSubset(SampleN, D2deep), b \in BalsPos}
       [] Family = "prog2"   -> {[sends |-> <<s1, s2>>, bal |-> b] : s1, s2 \in SendPal, b \in BalsWide}
+      \* portions whose percentage has decimals with a leading zero (2.05%, 1.01%, 6.25%), at amounts where they matter
+      [] Family = "pct"     -> {[sends |-> <<Send(m, s, d)>>, bal |-> BalPct(a, b)] : m \in {7, 100, 4001}, s \in PctSrc, d \in PctDst,
+                                                                                       a \in {0, 50, 5000}, b \in {0, 4000}}
+      \* two sends over disjoint accounts: the harness puts each in its own asset, with names whose account+asset strings coincide
+      [] Family = "collide" -> {[sends |-> <<Send(m1, SAcct("a", o1), DAcct("x")), Send(m2, SAcct("b", o2), DAcct("y"))>>, bal |-> Bal(a, b)]
+                                   : m1, m2 \in {0, 2, 3, -1}, o1, o2 \in {-1, 2}, a \in {0, 2, 5}, b \in {0, 3}}
 
 Init == c \in Cases
 Next == UNCHANGED c
@@ -76,5 +91,13 @@ LawC03Amount ==
         /\ ~HasKept(c.sends[1].dst) => Moved(Out(c).posts) = c.sends[1].amt
 
 \* ---- emission ------------------------------------------------------------------
-Emit == TLCGet("stats").generated >= 0 /\ ndJsonSerialize(OutFile, SetToSeq({[sends |-> cs.sends, bal |-> cs.bal, exp |-> Out(cs)] : cs \in Cases}))
+\* K: a common multiple of every portion denominator of the standard families (2, 3, 4, 7); the case multiplied by K
+\* splits into portions without remainders, which lets the harness run it at K * 2^55 and compare (see nsconf)
+K == 84
+UsesK(cs) == Family \in {"src1", "src2", "dst1", "dst2"} /\ HasPorts(cs.sends)
+Emit == TLCGet("stats").generated >= 0 /\
+        ndJsonSerialize(OutFile, SetToSeq({[sends |-> cs.sends, bal |-> cs.bal, exp |-> Out(cs),
+                                            k |-> IF UsesK(cs) THEN K ELSE 0,
+                                            expK |-> IF UsesK(cs) THEN Outcome(ScaleSends(cs.sends, K), ScaleBal(cs.bal, K)) ELSE Out(cs),
+                                            binding |-> IF Family = "collide" THEN "collide" ELSE ""] : cs \in Cases}))
 =============================================================================
